@@ -110,6 +110,7 @@ func genMonitor(out *Output, rng *Rng) {
 	out.Data["zoo_classes"] = zooClasses(certZoo())
 	runs := 0
 	hangs := 0
+	hungFiles := map[string]bool{}
 	for ri, r := range regs {
 		cn, ln, on, metas := kindNames(r)
 		for ci, cc := range certs {
@@ -135,6 +136,7 @@ func genMonitor(out *Output, rng *Rng) {
 			}()
 			runs++
 			if hung {
+				hungFiles[cc.File] = true
 				out.Violate("C01|does-not-return:cert", fmt.Sprintf("LintCertificateEx did not return within 20 s on %s", cc.File), map[string]interface{}{"file": cc.File, "der": hexs(cc.DER)}, "a result set", "no return")
 				hangs++
 				if hangs >= 2 {
@@ -182,7 +184,7 @@ func genMonitor(out *Output, rng *Rng) {
 		g.SetConfiguration(bad)
 		cn, ln, _, metas := kindNames(g)
 		for ci, cc := range certs {
-			if ci%6 != 0 && tier() != "thorough" {
+			if ci%6 != 0 && tier() != "thorough" || hangs >= 2 || hungFiles[cc.File] {
 				continue
 			}
 			var rs *zlint.ResultSet
